@@ -396,7 +396,7 @@ pub fn prop() -> DiceProp {
         rule: "pairs (friendly module, `#[no_implicit_prelude]` hostile module with a shadow set) of (A) items from the C01 generator (all 50 derives x shapes x generics x documented attributes) and (B) 26 behaviour templates per derive family (incl. container-level `#[debug(\"..\")]` formats and non-wrapping shared Display formats) x 8 shadow sets (none = pure no-prelude; a local trait offering `to_lowercase`/`as_str`/`write_str`/`default` for every type; local types Result/Option/String/Vec/Box; local fns/consts Ok/Err/Some/None; local traits Debug/Display/From/...; local macro_rules panic/write/format_args/matches/stringify/... that turn a capture into a compile error; silently capturing macros; glob-imported enum variants named Ok/Err/Some/None); oracle: the hostile copy compiles whenever the friendly one does and the driver's observation string (formatting results, panics, error texts, sources, parses) is identical in both; non-trivial = every case (the hostile scope always lacks the prelude); distinct by program text".into(),
         assumptions: vec!["user tokens of the generated items are written with absolute paths in the hostile module (token-level rewrite), so only tokens produced by the expansion can depend on the scope".into()],
         // behaviour templates are a fixed set of 22 x 7 programs (all of them run in round 0), so their share shrinks with the tier
-        floors: vec![("kind=behaviour".into(), 0.003), ("shadow=method_traits".into(), 0.06), ("template=Debug_container_format".into(), 0.001), ("shadow=macros".into(), 0.08), ("shadow=none".into(), 0.08), ("shadow=types".into(), 0.08), ("shadow=values".into(), 0.08), ("shadow=traits".into(), 0.08)],
+        floors: vec![("kind=behaviour".into(), 0.003), ("shadow=method_traits".into(), 0.06), ("template=Debug_container_format".into(), 0.0002), ("shadow=macros".into(), 0.08), ("shadow=none".into(), 0.08), ("shadow=types".into(), 0.08), ("shadow=values".into(), 0.08), ("shadow=traits".into(), 0.08)],
         shards: 0,
     }
 }
